@@ -927,7 +927,7 @@ def c_proto_from_model(fn, cpart):
         for a, b_ in sub:
             t = t.replace(a, b_)
         return t
-    ps = [nm(p) for p in m.group(3).split(";") if p]
+    ps = [p for p in nm(m.group(3)).split(";") if p]
     return "%s %s(%s)" % (nm(m.group(2)), m.group(1), ", ".join(ps) if ps else "void")
 
 
@@ -1174,7 +1174,11 @@ def main():
         "generic extern functions (ddpgenericlist / i8* parameters) and Windows are outside the model and the generator",
         "caller-side ownership is observed through the --wrap=ddp_reallocate ledger and the block addresses the generated callee reports on stderr; sha256 of the module name is an opaque function in the mangling model (unmangled extern symbols are observed by the link step)",
     ]
+    import time
+    t0 = time.time()
     ck.coq()
+    log("[c18] coq build + audit %.0fs" % (time.time() - t0))
+    t0 = time.time()
     ok, lg = b.ensure_native()
     if not ok:
         ck.violation("build", "kddp/runtime do not build from the current tree", dict(log=lg[-3000:]), no_input=True)
@@ -1221,7 +1225,10 @@ def main():
         except Exception as e:  # harness error, never silently dropped
             import traceback
             stats["model_mismatch"].append("harness error in group %d: %s %s" % (gi_, e, traceback.format_exc()[-600:]))
+    log("[c18] native build %.0fs; %d groups" % (time.time() - t0, len(jobs)))
+    t0 = time.time()
     vlib.pmap(one, jobs)
+    log("[c18] groups done in %.0fs" % (time.time() - t0))
     if stats["model_mismatch"] and not ck.violations:
         ck.broken_obligation("correspondence model <-> oracle/code fails: " + stats["model_mismatch"][0], "\n".join(stats["model_mismatch"][:10]))
     if stats["model_ledger_disagreements"] and not ck.violations:
